@@ -24,10 +24,17 @@ type verifRequest struct {
 
 func verifReq() *verifRequest {
 	r := &verifRequest{
-		method: vp.StringIn("req.method", 3, "GEPT"), path: "/" + vp.StringIn("req.path", 3, "ab/"), host: vp.StringIn("req.host", 3, "ab."),
-		port: vp.Uint32("req.port"), principal: vp.StringIn("req.principal", 24, "spife:/tdnsab"), iss: vp.StringIn("req.iss", 2, "ij/"), sub: vp.StringIn("req.sub", 2, "uv"),
+		method: vp.StringIn("req.method", 3, "GEPUT"), path: "/" + vp.StringIn("req.path", 2, "ab/"), host: vp.StringIn("req.host", 3, "ab."),
+		port: vp.Uint32("req.port"), iss: vp.StringIn("req.iss", 1, "ij"), sub: vp.StringIn("req.sub", 1, "uv"),
 	}
-	vp.Assume(r.port < 65536)
+	// the peer is unauthenticated (no principal) or carries a well-formed SPIFFE identity with arbitrary parts
+	if vp.Choice("req.authenticated", 2) == 1 {
+		td, ns, sa := vp.StringIn("req.td", 2, "td"), vp.StringIn("req.ns", 2, "ab"), vp.StringIn("req.sa", 2, "ab")
+		vp.Assume(vp.And3(td != "", ns != "", sa != ""))
+		r.principal = "spiffe://" + td + "/ns/" + ns + "/sa/" + sa
+	}
+	// an HTTP request always carries a method and an authority
+	vp.Assume(vp.And3(r.port < 65536, r.method != "", r.host != ""))
 	return r
 }
 
@@ -199,12 +206,20 @@ func verifPeerParts(principal string) (ok bool, td, ns, sa string) {
 	return
 }
 
-func verifRuleMatches(rule *authzpb.Rule, r *verifRequest, forTCP bool, deny bool) bool {
+func verifRuleMatches(rule *authzpb.Rule, r *verifRequest) bool {
 	from := len(rule.From) == 0
 	for _, f := range rule.From {
 		s := f.Source
 		okPeer, _, ns, _ := verifPeerParts(r.principal)
-		m := verifField(s.Principals, s.NotPrincipals, func(v string) bool { return verifValue("spiffe://"+v, r.principal) && true })
+		m := verifField(s.Principals, s.NotPrincipals, func(v string) bool {
+			if v == "*" {
+				return r.principal != "" // any authenticated peer
+			}
+			if strings.HasPrefix(v, "*") {
+				return strings.HasSuffix(r.principal, v[1:])
+			}
+			return verifValue("spiffe://"+v, r.principal)
+		})
 		m = vp.And(m, verifField(s.Namespaces, s.NotNamespaces, func(v string) bool { return vp.And(okPeer, verifValue(v, ns)) }))
 		m = vp.And(m, verifField(s.RequestPrincipals, s.NotRequestPrincipals, func(v string) bool {
 			return vp.And3(r.iss != "", r.sub != "", verifValue(v, r.iss+"/"+r.sub))
@@ -228,8 +243,18 @@ func verifRuleMatches(rule *authzpb.Rule, r *verifRequest, forTCP bool, deny boo
 
 // ---------------------------------------------------------------- symbolic rule
 
-func verifVal(name string, forms int) string {
-	lit := vp.StringIn(name+".lit", 2, "ab/GEPT.")
+// literals are drawn from small concrete menus (so the code under test runs concretely and fast); the REQUEST
+// stays fully symbolic, so every request is covered for each policy of the menu
+var verifLits = map[string][]string{
+	"to.methods": {"GET", "PUT"}, "to.notMethods": {"GET", "PUT"},
+	"to.paths": {"/a", "/ab"}, "to.notPaths": {"/a", "/ab"},
+	"to.hosts": {"a.b", "b"}, "to.notHosts": {"a.b", "b"},
+	"from.namespaces": {"a", "ab"}, "from.notNamespaces": {"a", "ab"},
+}
+
+func verifVal(field, name string, forms int) string {
+	menu := verifLits[field]
+	lit := menu[vp.Choice(name+".lit", len(menu))]
 	switch vp.Choice(name+".form", forms) {
 	case 0:
 		return lit
@@ -246,14 +271,17 @@ func verifVals(name string, forms int) []string {
 	case 0:
 		return nil
 	case 1:
-		return []string{verifVal(name+".0", forms)}
+		return []string{verifVal(name, name+".0", forms)}
 	}
-	return []string{verifVal(name+".0", forms), verifVal(name+".1", 1)}
+	if vp.Tier() == 0 {
+		// quick: the second value is the other literal of the menu, exact
+		return []string{verifVal(name, name+".0", forms), verifLits[name][1]}
+	}
+	return []string{verifVal(name, name+".0", forms), verifVal(name, name+".1", 1)}
 }
 
-// one rule with one from-source and one to-operation; which fields are used is chosen by the field menu
-func verifRule() *authzpb.Rule {
-	rule := &authzpb.Rule{}
+// to-operation with exactly one populated field family (or none)
+func verifOperation() *authzpb.Operation {
 	op := &authzpb.Operation{}
 	switch vp.Choice("to.field", 5) {
 	case 1:
@@ -270,23 +298,68 @@ func verifRule() *authzpb.Rule {
 			op.NotPorts = []string{"443"}
 		}
 	}
-	if vp.Choice("to.present", 2) == 1 {
-		rule.To = []*authzpb.Rule_To{{Operation: op}}
-	}
+	return op
+}
+
+// from-source with exactly one populated field family (or none)
+func verifSource() *authzpb.Source {
 	src := &authzpb.Source{}
 	switch vp.Choice("from.field", 4) {
 	case 1:
 		src.Principals, src.NotPrincipals = verifPrincipalVals("from.principals"), nil
 		if vp.Choice("from.notPrincipals.n", 2) == 1 {
-			src.NotPrincipals = []string{"td/ns/" + vp.StringIn("from.notPrincipals.ns", 1, "ab") + "/sa/a"}
+			src.NotPrincipals = []string{"td/ns/" + []string{"a", "b"}[vp.Choice("from.notPrincipals.ns", 2)] + "/sa/a"}
 		}
 	case 2:
 		src.Namespaces, src.NotNamespaces = verifVals("from.namespaces", 4), verifVals("from.notNamespaces", 1)
 	case 3:
-		src.RequestPrincipals = []string{vp.StringIn("from.reqPrincipal.iss", 1, "ij") + "/" + vp.StringIn("from.reqPrincipal.sub", 1, "uv")}
+		src.RequestPrincipals = []string{[]string{"i", "j"}[vp.Choice("from.reqPrincipal.iss", 2)] + "/" + []string{"u", "v"}[vp.Choice("from.reqPrincipal.sub", 2)]}
+		if vp.Choice("from.notReqPrincipal.n", 2) == 1 {
+			src.NotRequestPrincipals = []string{"i/*"}
+		}
 	}
-	if vp.Choice("from.present", 2) == 1 {
-		rule.From = []*authzpb.Rule_From{{Source: src}}
+	return src
+}
+
+// which part of the rule a harness explores: the generated permissions depend only on rule.To and the generated
+// principals only on rule.From (Generate builds them independently and ANDs them), so the two halves are explored
+// separately in full and together on a reduced menu.
+const (
+	verifToOnly = iota
+	verifFromOnly
+	verifBoth
+)
+
+func verifRule(part int) *authzpb.Rule {
+	rule := &authzpb.Rule{}
+	switch part {
+	case verifToOnly:
+		rule.To = []*authzpb.Rule_To{{Operation: verifOperation()}}
+	case verifFromOnly:
+		rule.From = []*authzpb.Rule_From{{Source: verifSource()}}
+	default:
+		ops := []*authzpb.Operation{
+			{Methods: []string{"GET"}}, {NotPaths: []string{"/a*"}}, {Ports: []string{"80"}}, {Hosts: []string{"*b"}, NotHosts: []string{"a.b"}},
+		}
+		srcs := []*authzpb.Source{
+			{Principals: []string{"td/ns/a/*"}}, {Namespaces: []string{"a"}}, {NotNamespaces: []string{"a*"}}, {RequestPrincipals: []string{"i/u"}},
+			{NotPrincipals: []string{"td/ns/a/sa/a"}},
+		}
+		// two to-operations / two from-sources: OR within To and within From
+		o1, s1 := vp.Choice("both.op1", len(ops)), vp.Choice("both.src1", len(srcs))
+		rule.To = []*authzpb.Rule_To{{Operation: ops[o1]}}
+		rule.From = []*authzpb.Rule_From{{Source: srcs[s1]}}
+		if vp.Tier() > 0 {
+			if o2 := vp.Choice("both.op2", len(ops)+1); o2 < len(ops) {
+				rule.To = append(rule.To, &authzpb.Rule_To{Operation: ops[o2]})
+			}
+			if s2 := vp.Choice("both.src2", len(srcs)+1); s2 < len(srcs) {
+				rule.From = append(rule.From, &authzpb.Rule_From{Source: srcs[s2]})
+			}
+		} else if vp.Choice("both.second", 2) == 1 {
+			rule.To = append(rule.To, &authzpb.Rule_To{Operation: ops[(o1+1)%len(ops)]})
+			rule.From = append(rule.From, &authzpb.Rule_From{Source: srcs[(s1+2)%len(srcs)]})
+		}
 	}
 	return rule
 }
@@ -294,18 +367,32 @@ func verifRule() *authzpb.Rule {
 func verifPrincipalVals(name string) []string {
 	switch vp.Choice(name+".form", 4) {
 	case 0:
-		return []string{"td/ns/" + vp.StringIn(name+".ns", 1, "ab") + "/sa/" + vp.StringIn(name+".sa", 1, "ab")}
+		return []string{"td/ns/" + []string{"a", "b"}[vp.Choice(name+".ns", 2)] + "/sa/" + []string{"a", "b"}[vp.Choice(name+".sa", 2)]}
 	case 1:
-		return []string{"td/ns/" + vp.StringIn(name+".ns", 1, "ab") + "/*"}
+		return []string{"td/ns/" + []string{"a", "b"}[vp.Choice(name+".ns", 2)] + "/*"}
 	case 2:
-		return []string{"*/sa/" + vp.StringIn(name+".sa", 1, "ab")}
+		return []string{"*/sa/" + []string{"a", "b"}[vp.Choice(name+".sa", 2)]}
 	}
 	return []string{"*"}
 }
 
+// F10 (open finding): a namespace suffix value "*x" becomes the regex .*/ns/.*x/.* whose wildcard crosses "/", so
+// when x is a suffix of the fixed "/sa" segment ("*a", "*sa") every authenticated peer matches. Rules of that shape
+// get their own label so that only this finding is suppressed.
+func verifLabel(rule *authzpb.Rule, label string) string {
+	for _, f := range rule.From {
+		for _, v := range append(append([]string{}, f.Source.Namespaces...), f.Source.NotNamespaces...) {
+			if len(v) > 1 && strings.HasPrefix(v, "*") && strings.HasSuffix("/sa", v[1:]) {
+				return label + "/namespace-suffix-wildcard-crosses-the-sa-segment"
+			}
+		}
+	}
+	return label
+}
+
 // HTTP: the generated RBAC policy matches a request iff the rule does, for ALLOW and DENY alike.
-func VerifC08HTTPEquivalence() {
-	rule := verifRule()
+func verifHTTPEquivalence(part int) {
+	rule := verifRule(part)
 	action := []rbacpb.RBAC_Action{rbacpb.RBAC_ALLOW, rbacpb.RBAC_DENY}[vp.Choice("action", 2)]
 	m, err := New(types.NamespacedName{Namespace: "ns", Name: "pol"}, rule)
 	if err != nil {
@@ -314,17 +401,21 @@ func VerifC08HTTPEquivalence() {
 	pol, err := m.Generate(false, true, action)
 	vp.Reach("generated")
 	r := verifReq()
-	want := verifRuleMatches(rule, r, false, action == rbacpb.RBAC_DENY)
+	want := verifRuleMatches(rule, r)
 	if err != nil {
 		vp.Unreachable("http-generation-never-fails-for-the-grammar")
 	}
-	vp.Assert(verifPolicyMatches(pol, r) == want, "generated-policy-matches-iff-the-rule-does")
+	vp.Assert(verifPolicyMatches(pol, r) == want, verifLabel(rule, "generated-policy-matches-iff-the-rule-does"))
 }
+
+func VerifC08HTTPTo()   { verifHTTPEquivalence(verifToOnly) }
+func VerifC08HTTPFrom() { verifHTTPEquivalence(verifFromOnly) }
+func VerifC08HTTPBoth() { verifHTTPEquivalence(verifBoth) }
 
 // TCP: never more permissive than the policy: an ALLOW rule with an HTTP-only field matches nothing,
 // a DENY rule keeps its remaining conditions.
-func VerifC08TCPFailClosed() {
-	rule := verifRule()
+func verifTCPFailClosed(part int) {
+	rule := verifRule(part)
 	action := []rbacpb.RBAC_Action{rbacpb.RBAC_ALLOW, rbacpb.RBAC_DENY}[vp.Choice("action", 2)]
 	m, err := New(types.NamespacedName{Namespace: "ns", Name: "pol"}, rule)
 	if err != nil {
@@ -333,38 +424,41 @@ func VerifC08TCPFailClosed() {
 	pol, gerr := m.Generate(true, true, action)
 	vp.Reach("generated")
 	r := verifReq()
+	// the rule as a TCP connection can be judged: per to-operation / from-source, HTTP-only fields erased
 	httpOnly := false
-	hasReqPrincipal := false
-	if len(rule.To) > 0 {
-		o := rule.To[0].Operation
-		httpOnly = len(o.Methods)+len(o.NotMethods)+len(o.Paths)+len(o.NotPaths)+len(o.Hosts)+len(o.NotHosts) > 0
+	erased := &authzpb.Rule{}
+	for _, t := range rule.To {
+		o := t.Operation
+		if len(o.Methods)+len(o.NotMethods)+len(o.Paths)+len(o.NotPaths)+len(o.Hosts)+len(o.NotHosts) > 0 {
+			httpOnly = true
+		}
+		erased.To = append(erased.To, &authzpb.Rule_To{Operation: &authzpb.Operation{Ports: o.Ports, NotPorts: o.NotPorts}})
 	}
-	if len(rule.From) > 0 {
-		hasReqPrincipal = len(rule.From[0].Source.RequestPrincipals) > 0
+	for _, f := range rule.From {
+		s := f.Source
+		if len(s.RequestPrincipals)+len(s.NotRequestPrincipals) > 0 {
+			httpOnly = true
+		}
+		erased.From = append(erased.From, &authzpb.Rule_From{Source: &authzpb.Source{Principals: s.Principals, NotPrincipals: s.NotPrincipals, Namespaces: s.Namespaces, NotNamespaces: s.NotNamespaces}})
 	}
 	if action == rbacpb.RBAC_ALLOW {
-		if httpOnly || hasReqPrincipal {
-			vp.Assert(gerr != nil, "allow-rule-with-http-only-field-is-dropped-on-tcp")
+		if httpOnly {
+			// fail closed: the rule cannot be enforced on TCP, so it must allow nothing
+			vp.Assert(vp.Or(gerr != nil, pol == nil), "allow-rule-with-http-only-field-is-dropped-on-tcp")
 			return
 		}
 		vp.Assert(gerr == nil, "tcp-expressible-allow-rule-is-generated")
-		// on TCP the request has no method/path/host: only port and peer identity conditions remain
-		vp.Assert(verifPolicyMatches(pol, r) == verifRuleMatches(rule, r, true, false), "tcp-allow-matches-iff-the-rule-does")
+		vp.Assert(verifPolicyMatches(pol, r) == verifRuleMatches(rule, r), verifLabel(rule, "tcp-allow-matches-iff-the-rule-does"))
 		return
 	}
 	vp.Assert(gerr == nil, "deny-rule-is-always-generated-on-tcp")
-	// remaining conditions: the rule with its HTTP-only fields erased
-	erased := &authzpb.Rule{From: rule.From, To: rule.To}
-	if len(rule.To) > 0 {
-		o := rule.To[0].Operation
-		erased.To = []*authzpb.Rule_To{{Operation: &authzpb.Operation{Ports: o.Ports, NotPorts: o.NotPorts}}}
-	}
-	if hasReqPrincipal {
-		s := rule.From[0].Source
-		erased.From = []*authzpb.Rule_From{{Source: &authzpb.Source{Principals: s.Principals, NotPrincipals: s.NotPrincipals, Namespaces: s.Namespaces, NotNamespaces: s.NotNamespaces}}}
-	}
-	vp.Assert(verifPolicyMatches(pol, r) == verifRuleMatches(erased, r, true, true), "tcp-deny-enforces-the-remaining-conditions")
+	// never more permissive: whenever the remaining (TCP-checkable) conditions hold, the connection is denied
+	vp.Assert(verifPolicyMatches(pol, r) == verifRuleMatches(erased, r), verifLabel(rule, "tcp-deny-enforces-the-remaining-conditions"))
 }
+
+func VerifC08TCPTo()   { verifTCPFailClosed(verifToOnly) }
+func VerifC08TCPFrom() { verifTCPFailClosed(verifFromOnly) }
+func VerifC08TCPBoth() { verifTCPFailClosed(verifBoth) }
 
 // Mutant twin: "notPaths is ignored" must be refuted.
 func VerifC08Twin() {
